@@ -691,11 +691,15 @@ func runWorkload(root string, base *Base, w Workload, only int) *WlRun {
 						wr.Results = append(wr.Results, "idle panic: "+fmt.Sprint(x))
 					}
 				}()
+				s.mu.Lock()
+				begun := s.cnt["utxo.save:begin"]
+				s.mu.Unlock()
 				if k.Ch.Idle() {
-					// a save was started; it counts as begun even before its first point fires
+					// a save was started; it counts as begun even before its first point fires. (If its first point HAS fired by now -
+					// the driver may lose the processor for a while when many fresh processes are running - the points keep saveAct.)
 					s.mu.Lock()
 					s.started++
-					if s.cnt["utxo.save:begin"] == s.cnt["utxo.save:finito"] {
+					if s.cnt["utxo.save:begin"] == begun {
 						s.saveAct = true
 					}
 					s.mu.Unlock()
